@@ -7,6 +7,7 @@ import (
 	"encoding/json"
 	"fmt"
 	"os"
+	"runtime"
 	"runtime/debug"
 	"sort"
 	"strconv"
@@ -214,6 +215,37 @@ func TestWorker(t *testing.T) {
 		out.Infra = "unknown property " + propID
 		return
 	}
+	// Stall watchdog (real time, outside every bubble): a run that blocks for real
+	// - something the simulator is built to make impossible - must cost seconds,
+	// not the driver's ten-minute limit, and is an infrastructure error.
+	stallS := envInt("VERIF_STALL_S", 120)
+	go func() {
+		last, since := int64(-1), time.Now()
+		for {
+			time.Sleep(2 * time.Second)
+			if p := Progress.Load(); p != last {
+				last, since = p, time.Now()
+				continue
+			}
+			if time.Since(since) > time.Duration(stallS)*time.Second {
+				buf := make([]byte, 1<<20)
+				buf = buf[:runtime.Stack(buf, true)]
+				if len(buf) > 20000 {
+					buf = buf[:20000]
+				}
+				where := ""
+				if cr := curRun; cr != nil {
+					where = fmt.Sprintf(" in run %d (seed %d)", cr.idx, cr.seed)
+				}
+				o := &WorkerOut{Worker: out.Worker, Infra: fmt.Sprintf("worker stalled for %d s of real time%s: a goroutine is blocked outside the simulator's control\n%s", stallS, where, buf)}
+				if outPath != "" {
+					b, _ := json.Marshal(o)
+					os.WriteFile(outPath, b, 0o644)
+				}
+				os.Exit(2)
+			}
+		}
+	}()
 	if rf := os.Getenv("VERIF_REPLAY"); rf != "" {
 		replayMain(t, prop, rf, out)
 		return
